@@ -262,3 +262,13 @@ package mobius
 
 //@ func (n *ThreadedNewsYAML) writeFile() (err error)
 //@   modifies nothing
+
+// ---------------------------------------------------------------------------------
+// C12: a chat line is cut to 8192 bytes whatever its form; a public line goes only to clients whose
+// account may read chat.
+
+//@ func HandleChatSend(cc *hotline.ClientConn, t *hotline.Transaction) (res []hotline.Transaction)
+//@   property C12
+//@   before call hotline.NewField assert arg0[0] == 0 && arg0[1] == 101 ==> len(arg1) <= 8192
+//@   before call hotline.NewTransaction#2 assert priv(c, 9)
+//@   before call hotline.NewTransaction assert arg0[0] == 0 && arg0[1] == 106
